@@ -50,6 +50,8 @@ WORD_ORDER = [None, "VariablePrefix", "RawVariablePrefix", "MathPrefix", "SuperV
               "LoopPrefix", "LoopSuffix", "IfPrefix", "IfSuffix", "ElsePrefix"]
 
 
+META["explanation"] += " " + '(PR-chain) in the loop of renderIf over the cases of an <if>, every break/return is preceded in its own or an enclosing compound statement by an unconditional call of render(): a case that is false or has no value is passed over, nothing but a rendered case ends the walk.'
+
 def rule_patterns(ctx, m):
     r = Rule("TB-patterns", "pattern literals spell the documented tags and declared lengths equal literal lengths", floor=120)
     tps = tab.members(m, "Qentem::Tags::TPStrings_T")
@@ -329,10 +331,63 @@ def run(ctx):
                  ": that is not the loop's parent -- the chain then starts at the loop itself and a set whose name begins with the loop's own value name is taken for that value"), g.loc(c))
     rules.append(r)
     rules.append(rule_child_flag(ctx, m, pf))
+    rules.append(rule_if_chain(ctx, m))
     from rules.common import rule_sign_unit, rule_fast_digits
     rules.append(rule_sign_unit(ctx, m, ["Template.hpp", "Digit.hpp", "QExpression.hpp", "StringUtils.hpp"]))
     rules.append(rule_fast_digits(ctx, m))
     return rules
+
+
+def rule_if_chain(ctx, m):
+    """PR-chain: renderIf walks the cases of an <if> in order and leaves the walk when one of them was rendered; a case that is
+    false -- or has no value (5/0, text in arithmetic) -- is passed over, so a later <elseif>/<else> still gets its turn.  In the
+    loop over the cases every `break`/`return` is preceded, in its own or an enclosing compound statement, by an unconditional call
+    of render(): nothing else ends the walk."""
+    r = Rule("PR-chain", "the walk over the cases of an <if> ends only after a case was rendered", floor=1)
+    fs = [f for f in m.functions if not f.inst and f.cfg and f.cls == "Qentem::TemplateCore" and f.name == "renderIf"]
+    if not fs:
+        r.broke("TemplateCore::renderIf not found")
+        return r
+    f = fs[0]
+    ctx.note_fn(f)
+    par = f.parents()
+    loops = [w for w in astq.nodes_of(f, ("DoStmt", "WhileStmt", "ForStmt")) if any(f.call_simple_name(c) == "render" for c in astq.calls(f, None, w))]
+    if not loops:
+        r.broke("renderIf: no loop that renders a case was found")
+        return r
+    for w in loops:
+        exits = []
+        for x in f.walk(f.nodes[w].get("body", w)):
+            k = f.nodes[x]["k"]
+            if k == "ReturnStmt":
+                exits.append(x)
+            elif k == "BreakStmt":
+                up = par.get(x)
+                own = True
+                while up is not None and up != w:
+                    if f.nodes[up]["k"] in ("DoStmt", "WhileStmt", "ForStmt", "SwitchStmt"):
+                        own = False
+                    up = par.get(up)
+                if own:
+                    exits.append(x)
+        if not exits:
+            r.ob(f.q, "loop over the cases", True, "the loop has no early exit", f.loc(w))
+        for x in exits:
+            ok = False
+            child, up = x, par.get(x)
+            while up is not None and child != w:
+                un = f.nodes[up]
+                if un["k"] == "CompoundStmt":
+                    for sib in un.get("ch", []):
+                        if sib == child:
+                            break
+                        sn = f.nodes[f.strip(sib)]
+                        if sn["k"] in ("CallExpr", "CXXMemberCallExpr") and f.call_simple_name(f.strip(sib)) == "render":
+                            ok = True
+                child, up = up, par.get(up)
+            r.ob(f.q, "%s at line %s" % (f.nodes[x]["k"][:-4].lower(), f.nodes[x].get("l", "?")), ok, "a case was rendered before the walk ends" if ok else
+                 "this exit ends the walk over the cases without any case having been rendered: a case without a value (5/0) then hides the <else> that follows it", f.loc(x))
+    return r
 
 
 def rule_child_flag(ctx, m, pf):
